@@ -1,2 +1,14 @@
 #!/bin/sh
-exit 0
+# Run once after a fresh restore, offline: builds the Lean project and the Rust harness from files on disk.
+set -e
+cd "$(dirname "$0")"
+export CARGO_NET_OFFLINE=true
+mkdir -p work evidence .build
+# translators (the committed RF/Gen files are regenerated from /repo's current source)
+for t in translate/c*.py; do python3 "$t" --repo /repo --out lean/RF/Gen || true; done
+(cd lean && lake build RF rfmodel)
+cp -n /repo/Cargo.lock harness/Cargo.lock 2>/dev/null || true
+cp -n /repo/rust-toolchain harness/rust-toolchain 2>/dev/null || true
+(cd harness && cargo build --offline)
+if [ -x ./setup_frozen.sh ]; then ./setup_frozen.sh; fi
+echo setup done
